@@ -78,12 +78,12 @@ theorem odoRun_level (outer : Vars) (visit : Vars → σ → Except Err (σ × B
     induction items with
     | nil =>
       intro frames acc fuel
-      simp only [levelCost, loopFold]
+      simp only [levelCost_nil, levelCost_cons, loopFold]
       rw [Nat.add_comm, odoRun_succ]
       cases frames <;> simp [odoStep, afterLevel, pure, Except.pure, bind, Except.bind]
     | cons v rest ih =>
       intro frames acc fuel
-      simp only [levelCost, subCost, loopFold, cartFold]
+      simp only [levelCost_cons, subCost, loopFold, cartFold]
       have : 1 + 0 + levelCost [] (frameVars frames outer) name rest + fuel
           = (levelCost [] (frameVars frames outer) name rest + fuel) + 1 := by omega
       rw [this, odoRun_succ]
@@ -101,12 +101,12 @@ theorem odoRun_level (outer : Vars) (visit : Vars → σ → Except Err (σ × B
     induction items with
     | nil =>
       intro frames acc fuel
-      simp only [levelCost, loopFold]
+      simp only [levelCost_nil, levelCost_cons, loopFold]
       rw [Nat.add_comm, odoRun_succ]
       cases frames <;> simp [odoStep, afterLevel, pure, Except.pure, bind, Except.bind]
     | cons v rest ih =>
       intro frames acc fuel
-      simp only [levelCost, loopFold]
+      simp only [levelCost_nil, levelCost_cons, loopFold]
       -- first pass: `k += 1`
       have hc : 1 + subCost ((name', sel') :: later') ((name, [v]) :: frameVars frames outer)
             + levelCost ((name', sel') :: later') (frameVars frames outer) name rest + fuel
@@ -117,7 +117,7 @@ theorem odoRun_level (outer : Vars) (visit : Vars → σ → Except Err (σ × B
       -- the level below starts its generator
       have hv : frameVars (Frame.mk name sel v rest :: frames) outer
           = (name, [v]) :: frameVars frames outer := rfl
-      simp only [subCost, cartFold]
+      simp only [subCost_cons, cartFold]
       cases hs : sel' ((name, [v]) :: frameVars frames outer) with
       | error e =>
         simp only []
@@ -162,7 +162,7 @@ theorem iterProduct_eq_cartFold (pending : List (Nat × Sel)) (hne : pending ≠
   | cons p later =>
     obtain ⟨name, sel⟩ := p
     unfold iterProduct
-    simp only [subCost, cartFold]
+    simp only [subCost_cons, cartFold]
     cases hs : sel outer with
     | error e =>
       simp only []
